@@ -10,6 +10,8 @@
 //  * The digit tables kLower/kUpper are where "lower-case hex" lives: expectations arrive as digit
 //    indices and are turned into bytes here, then compared byte for byte.
 #pragma once
+#include <algorithm>
+#include <csignal>
 #include <cstdint>
 #include <cstdio>
 #include <cstdlib>
@@ -19,6 +21,7 @@
 #include <string>
 #include <utility>
 #include <vector>
+#include <unistd.h>
 
 #include <nlohmann/json.hpp>
 
@@ -363,16 +366,29 @@ inline std::string &current_case()
 }
 inline void on_death()
 {
-  if (!current_case().empty())
+  static bool done = false;
+  if (!done && !current_case().empty())
   {
+    done = true;
     fputs(current_case().c_str(), stdout);
     fputs("\n", stdout);
-    fflush(stdout);
   }
+  fflush(stdout);
 }
+inline void on_signal(int)
+{
+  // not async-signal-safe, but the process is going down anyway and is single-threaded
+  on_death();
+  _exit(4);
+}
+// The check runs the harness with abort_on_error=1 for ASan and UBSan (gcc links two copies of the
+// sanitizer runtime, so the death callback alone would miss UBSan): every sanitizer report ends in
+// SIGABRT, and the handler says which concrete case was running.
 inline void install_death_callback()
 {
   __sanitizer_set_death_callback(on_death);
+  for (int sig : {SIGABRT, SIGSEGV, SIGBUS, SIGFPE, SIGILL})
+    signal(sig, on_signal);
 }
 inline void set_current(long id, int inst, const json &concrete)
 {
